@@ -5,11 +5,22 @@
    t_run = the terminal those operations act on (after src/mockterm.c); linemask_to_char =
    the glyph table re-translated from src/linechars.inc on every run (Gen_Linechars.v);
    arms_of_boxchar = the arms of the Unicode box-drawing characters (RBGlyphs.v, hand-written
-   specification); grid_meets / flush_checkb = the cell-wise expectation of RBFlushSpec.v.
+   specification); grid_meets / flush_checkb = the cell-wise expectation of RBFlushSpec.v;
+   track = the cursor tracker of RBFlushCols.v (which cells a list of terminal operations
+   covers, given that printing advances by text_width, erasech(n, YES) moves to the end of the
+   erased range and erasech(n, MAYBE) leaves the cursor at an unknown position); pending = the
+   non-skip cells of the buffer in row-major order (RBFlushReach.v); tcellat t y x = the cell
+   of terminal t at line y, column x; term_ok = the terminal's grid has t_lines rows of t_cols
+   cells; over c d = what a terminal cell shows when buffer cell c is flushed over it (d itself
+   for a Skip cell); narrow u = every code point of u has width one; lay u = the layout of a
+   string by the terminal's grapheme rule (RBTermSim.v: a base character with the zero-width
+   characters following it in the cell of its first column, an empty continuation cell for the
+   second column of a double-width character); shows c old new = what the terminal cell must be
+   under buffer cell c (RBFlushShown.v).
    This file contains nothing but the property theorems, each closed by [exact <lemma>]. *)
 From Coq Require Import ZArith List Bool.
-From Tickit Require Import RectDefs RBDefs RBSpec RBInv RBProofs Gen_Linechars RBGlyphs RBGlyphProofs
-                           RBFlushDefs RBFlushSpec RBFlushProofs.
+From Tickit Require Import RectDefs RBDefs RBSpec RBAbsLemmas RBInv RBProofs Gen_Linechars RBGlyphs RBGlyphProofs
+                           RBFlushDefs RBFlushSpec RBFlushProofs RBProps RBWidth RBFlushCols RBFlushReach RBTermSim RBFlushShown RBFlushGrid RBFlushFull RBFlushPayload RBCopySpec RBCopyContent.
 Import ListNotations.
 Local Open Scope Z_scope.
 
@@ -30,28 +41,259 @@ Theorem C04_flush_total_and_resets : forall s,
 Proof. exact flush_total_and_resets. Qed.
 Print Assumptions C04_flush_total_and_resets.
 
-(* NOT PROVED (full statement; carried by the correspondence check as testing: the exact
-   operation log and final grid of the C against this model, and the C's own observations
-   against flush_checkb, over all programs of <= 3 ops on 2x6, all 255 masks, every text of a
-   width-mix family cut at every column, and random programs):
+(* Column bookkeeping with wide and zero-width characters: a text span of n columns showing a
+   valid string from column offs on is flushed as operations that advance the terminal by
+   exactly n columns -- whatever mix of width-0, width-1 and width-2 characters the string
+   has, and whether or not the span begins or ends in the middle of a double-width character
+   (the orphaned half is printed as a blank). *)
+Theorem C04_text_columns : forall p s offs n,
+  text_valid s = true -> 0 <= offs -> 1 <= n -> offs + n <= text_width s ->
+  log_cols (text_emit p s offs n) = n.
+Proof. exact text_emit_cols. Qed.
+Print Assumptions C04_text_columns.
 
-   C04_flush_full : forall s t0 ops s',
-     Inv s -> (every CChar code point has width 1, every CLine mask is in 1..255, every CText
-               span lies within its string's width: invariants of reachable states) ->
-     t_lines t0 >= rb_lines s -> t_cols t0 >= rb_cols s -> (cursor of t0 anywhere, pen anything) ->
-     flush s = Ok (ops, s') ->
-     exists t1, t_run t0 ops = Ok t1 /\
-       grid_meets (ag (abs_rb s)) (tg t0) (tg t1) = true /\      (* every cell at its own line and
-                                                                    column with its own pen; Skip
-                                                                    cells and cells outside the
-                                                                    buffer untouched *)
-       log_cols ops = pending_cells (ag (abs_rb s)).             (* exactly once *)
+(* [pending s] is the list of the non-skip cells of the specification's grid, without
+   duplicates. *)
+Theorem C04_pending : forall s, Inv s ->
+  NoDup (pending s) /\
+  forall l c, In (l, c) (pending s) <->
+              in_grid (abs_rb s) l c /\ ac (gcell (ag (abs_rb s)) l c) <> ASkip.
+Proof. exact pending_spec. Qed.
+Print Assumptions C04_pending.
 
-   What is missing: (1) the lemma that text_emit prints exactly the span's columns for every
-   width mix (lead + width of the slice + trail = n), which needs a characterisation of where
-   tickit_utf8_countmore stops; (2) the simulation of flush_line against t_apply with the
-   invariant "phycol = the terminal's column, or -1"; (3) the three content invariants above
-   carried through the C03 operations. *)
+(* "Exactly once, each in its own place": wherever the terminal's cursor is before the flush
+   (known or unknown), every print and erase the flush issues happens at a known cursor
+   position, and the cells these operations cover, in order, are precisely the pending cells
+   of the buffer -- each once, each at its own line and column, nothing else (skip cells and
+   everything outside the buffer are never written).  Hypothesis acells_ok: every Text cell
+   lies within its valid string, every Char cell has width one, every Line mask is in 1..255
+   (discharged for reachable buffers in the next theorem). *)
+Theorem C04_flush_columns : forall s ops s' cur,
+  Inv s -> acells_ok (abs_rb s) -> flush s = Ok (ops, s') ->
+  exists cur', track cur ops = Some (pending s, cur').
+Proof. exact flush_columns. Qed.
+Print Assumptions C04_flush_columns.
+
+(* The oracle's checker for "each in its own place, exactly once" (clause 4 of flush_checkb,
+   evaluated on the operations the C implementation sent) is this theorem's statement: on the
+   model's own operations it always answers true. *)
+Theorem C04_flush_covers : forall s ops s',
+  Inv s -> acells_ok (abs_rb s) -> flush s = Ok (ops, s') -> covers_checkb (ag (abs_rb s)) ops = true.
+Proof. exact flush_covers. Qed.
+Print Assumptions C04_flush_covers.
+
+(* ... for every buffer a drawing program reaches (line styles 1..3). *)
+Theorem C04_flush_columns_reachable : forall L C prog s v cur,
+  0 <= L -> 0 <= C -> Forall op_ok prog -> run (rb_new L C) prog = Ok (s, v) ->
+  exists ops cur', flush s = Ok (ops, reset s) /\ track cur ops = Some (pending s, cur').
+Proof. exact flush_columns_reachable. Qed.
+Print Assumptions C04_flush_columns_reachable.
+
+(* the content invariant is preserved by every step of the specification *)
+Theorem C04_content_invariant : forall A o, op_ok o -> ashape A -> acells_ok A -> acells_ok (fst (astep A o)).
+Proof. exact astep_aok. Qed.
+Print Assumptions C04_content_invariant.
+
+(* ... and by the specification of copyrect / moverect / blit (property C13), so the flush
+   theorems below apply to buffers built with them as well. *)
+Theorem C04_content_invariant_copyrect : forall s dr sr, ashape s -> acells_ok s -> acells_ok (a_copyrect s dr sr).
+Proof. exact a_copyrect_aok. Qed.
+Print Assumptions C04_content_invariant_copyrect.
+Theorem C04_content_invariant_moverect : forall s dr sr, ashape s -> acells_ok s -> acells_ok (a_moverect s dr sr).
+Proof. exact a_moverect_aok. Qed.
+Print Assumptions C04_content_invariant_moverect.
+Theorem C04_content_invariant_blit : forall dst src,
+  ashape dst -> acells_ok dst -> ashape src -> acells_ok src -> acells_ok (a_blit dst src).
+Proof. exact a_blit_aok. Qed.
+Print Assumptions C04_content_invariant_blit.
+
+(* The terminal model executes any list of operations exactly as the grid-free description
+   [paint] says (goto within the terminal; prints of valid strings beginning with a base
+   character that fit, laid out by [lay]; erases that fit): no fault, and every cell is the last
+   thing written to it, or what it was. *)
+Theorem C04_terminal_executes : forall ops t cur w cur' pen',
+  term_ok t -> cur_match t cur ->
+  paint (t_lines t) (t_cols t) cur (t_cur t) ops = Some (w, cur', pen') ->
+  exists t', t_run t ops = Ok t' /\ term_ok t' /\ same_frame t t' /\ t_cur t' = pen' /\ cur_match t' cur' /\
+    forall y x, 0 <= y < t_lines t -> 0 <= x < t_cols t -> tcellat t' y x = look w (y, x) (tcellat t y x).
+Proof. exact t_run_paint. Qed.
+Print Assumptions C04_terminal_executes.
+
+(* The mock terminal's grapheme loop (mtd_print) lays a valid string that begins with a base
+   character out as [lay] says, advancing by exactly the string's width. *)
+Theorem C04_print_layout : forall u t,
+  valid u -> starts_base u -> term_ok t -> 0 <= t_line t < t_lines t -> 0 <= t_col t -> t_col t + tw u <= t_cols t ->
+  exists t', t_apply t (TPrint u) = Ok t' /\
+    term_ok t' /\ same_frame t t' /\ t_cur t' = t_cur t /\ t_line t' = t_line t /\ t_col t' = t_col t + tw u /\
+    forall y x, 0 <= y < t_lines t -> 0 <= x < t_cols t ->
+      tcellat t' y x = if (y =? t_line t) && (t_col t <=? x) && (x <? t_col t + tw u)
+                       then mkT (nth (Z.to_nat (x - t_col t)) (lay u) []) (t_cur t) else tcellat t y x.
+Proof. exact print_lay. Qed.
+Print Assumptions C04_print_layout.
+
+(* THE PROPERTY, for EVERY buffer (any mix of character widths): flushing onto ANY terminal at
+   least as large as the buffer -- whatever its content, cursor and pen, and whether or not its
+   erasech(MAYBE) moves the cursor -- the terminal executes the emitted operations without
+   fault, and afterwards
+     - every terminal cell outside the buffer or under a Skip cell is what it was;
+     - under an Erase / Line / Char cell it shows a blank / the table's glyph / the code point,
+       in that cell's pen;
+     - under a Text cell it carries the text's pen, and, if the text consists of width-one
+       characters, shows the text's own character for that column.
+   (What a Text cell of a string with double-width or zero-width characters shows is determined
+   exactly by C04_flush_shown below, in terms of the span, and shown to be what the
+   specification's expect_cell accepts in C04_flush_full.) *)
+Theorem C04_flush_grid_all : forall s t0 ops s',
+  Inv s -> acells_ok (abs_rb s) ->
+  term_ok t0 -> rb_lines s <= t_lines t0 -> rb_cols s <= t_cols t0 ->
+  flush s = Ok (ops, s') ->
+  exists t1, t_run t0 ops = Ok t1 /\ term_ok t1 /\ same_frame t0 t1 /\
+    forall y x, 0 <= y < t_lines t0 -> 0 <= x < t_cols t0 ->
+      if (y <? rb_lines s) && (x <? rb_cols s)
+      then shows (ac (gcell (ag (abs_rb s)) y x)) (tcellat t0 y x) (tcellat t1 y x)
+      else tcellat t1 y x = tcellat t0 y x.
+Proof. exact flush_grid_shows. Qed.
+Print Assumptions C04_flush_grid_all.
+
+(* ... exactly, span by span: the cells under a text span show the layout (by the terminal's
+   grapheme rule) of the visible slice of the string, with a blank for each orphaned half of a
+   double-width character ([shown], [span_out]). *)
+Theorem C04_flush_shown : forall s t0 ops s',
+  Inv s -> acells_ok (abs_rb s) ->
+  term_ok t0 -> rb_lines s <= t_lines t0 -> rb_cols s <= t_cols t0 ->
+  flush s = Ok (ops, s') ->
+  exists t1, t_run t0 ops = Ok t1 /\ term_ok t1 /\ same_frame t0 t1 /\
+    forall y x, 0 <= y < t_lines t0 -> 0 <= x < t_cols t0 ->
+      tcellat t1 y x =
+      if (y <? rb_lines s) && (x <? rb_cols s)
+      then shown (zn (cells s) y []) x (tcellat t0 y x)
+      else tcellat t0 y x.
+Proof. exact flush_grid_shown. Qed.
+Print Assumptions C04_flush_shown.
+
+(* ... for every buffer a drawing program reaches (line styles 1..3), against the specification's
+   grid of C03. *)
+Theorem C04_flush_grid_all_reachable : forall L C prog s v t0,
+  0 <= L -> 0 <= C -> Forall op_ok prog -> run (rb_new L C) prog = Ok (s, v) ->
+  term_ok t0 -> L <= t_lines t0 -> C <= t_cols t0 ->
+  exists ops t1, flush s = Ok (ops, reset s) /\ t_run t0 ops = Ok t1 /\ term_ok t1 /\ same_frame t0 t1 /\
+    forall y x, 0 <= y < t_lines t0 -> 0 <= x < t_cols t0 ->
+      if (y <? L) && (x <? C)
+      then shows (ac (gcell (ag (fst (arun (a_new L C) prog))) y x)) (tcellat t0 y x) (tcellat t1 y x)
+      else tcellat t1 y x = tcellat t0 y x.
+Proof. exact flush_grid_reachable. Qed.
+Print Assumptions C04_flush_grid_all_reachable.
+
+(* As one equation, for buffers whose texts consist of width-one characters (ASCII, Latin-1, box
+   drawing ...): flushing onto ANY terminal at least as large as the buffer -- whatever its
+   content, cursor and pen, and whether or not its erasech(MAYBE) moves the cursor -- the
+   terminal executes the emitted operations without fault, and afterwards every terminal cell
+   under a pending buffer cell shows that cell's content (the text's own character for that
+   column, a blank for Erase, the code point for Char, the table's glyph for Line) in that
+   cell's pen, and EVERY other cell of the terminal is what it was. *)
+Theorem C04_flush_grid : forall s t0 ops s',
+  Inv s -> acells_ok (abs_rb s) -> anarrow (abs_rb s) ->
+  term_ok t0 -> rb_lines s <= t_lines t0 -> rb_cols s <= t_cols t0 ->
+  flush s = Ok (ops, s') ->
+  exists t1, t_run t0 ops = Ok t1 /\ term_ok t1 /\ same_frame t0 t1 /\
+    forall y x, 0 <= y < t_lines t0 -> 0 <= x < t_cols t0 ->
+      tcellat t1 y x =
+      if (y <? rb_lines s) && (x <? rb_cols s)
+      then over (ac (gcell (ag (abs_rb s)) y x)) (tcellat t0 y x)
+      else tcellat t0 y x.
+Proof. exact flush_grid_narrow. Qed.
+Print Assumptions C04_flush_grid.
+
+(* ... for every buffer reached by a drawing program (line styles 1..3, texts and characters of
+   width one), stated against the specification's grid of C03. *)
+Theorem C04_flush_grid_reachable : forall L C prog s v t0,
+  0 <= L -> 0 <= C -> Forall op_ok prog -> Forall op_narrow prog -> run (rb_new L C) prog = Ok (s, v) ->
+  term_ok t0 -> L <= t_lines t0 -> C <= t_cols t0 ->
+  exists ops t1, flush s = Ok (ops, reset s) /\ t_run t0 ops = Ok t1 /\ term_ok t1 /\ same_frame t0 t1 /\
+    forall y x, 0 <= y < t_lines t0 -> 0 <= x < t_cols t0 ->
+      tcellat t1 y x =
+      if (y <? L) && (x <? C)
+      then over (ac (gcell (ag (fst (arun (a_new L C) prog))) y x)) (tcellat t0 y x)
+      else tcellat t0 y x.
+Proof. exact flush_grid_narrow_reachable. Qed.
+Print Assumptions C04_flush_grid_reachable.
+
+(* Clause 5 of the oracle's flush_checkb (overlay_checkb, evaluated on the grid the C
+   implementation left) is the statement of C04_flush_grid. *)
+Theorem C04_flush_overlay : forall s t0 ops s',
+  Inv s -> acells_ok (abs_rb s) -> anarrow (abs_rb s) ->
+  term_ok t0 -> rb_lines s <= t_lines t0 -> rb_cols s <= t_cols t0 ->
+  flush s = Ok (ops, s') ->
+  exists t1, t_run t0 ops = Ok t1 /\ overlay_checkb (ag (abs_rb s)) (tg t0) (tg t1) = true.
+Proof. exact flush_overlay. Qed.
+Print Assumptions C04_flush_overlay.
+
+(* A text cell against the specification's grapheme arithmetic, for any mix of widths: with a =
+   the start of the grapheme covering the cell's string column, b = its end, w = its width, the
+   cell shows the whole grapheme if w = 1; for a double-width grapheme its first column shows the
+   grapheme or a blank, its second column nothing or a blank (a blank exactly when the other half
+   lies outside the span; the grapheme itself only when it lies wholly inside the span). *)
+Theorem C04_text_cell : forall p s offs n d j,
+  text_valid s = true -> 0 <= offs -> 1 <= n -> offs + n <= text_width s -> 0 <= j < n ->
+  let col := offs + j in
+  let T := t_text (nth (Z.to_nat j) (span_out (CText p s offs) n) d) in
+  let a := slice_start s col in
+  let b := count_on s a (sp_gr a + 1) (-1) in
+  let c0 := sp_col a in
+  let w := sp_col b - c0 in
+  c0 <= col < c0 + w /\
+  (w = 1 -> T = slice s a b) /\
+  (w <> 1 -> col = c0 -> (T = slice s a b /\ offs <= c0 /\ c0 + w <= offs + n) \/ T = [32]) /\
+  (w <> 1 -> col <> c0 -> (T = [] /\ offs <= c0 /\ c0 + w <= offs + n) \/ T = [32]).
+Proof. exact text_cell_ok. Qed.
+Print Assumptions C04_text_cell.
+
+(* THE PROPERTY IN FULL: flushing any buffer onto any terminal at least as large -- whatever the
+   terminal's content, cursor and pen, whether or not its erasech(MAYBE) moves the cursor, and
+   whatever mix of zero-width, single-width and double-width characters the texts have -- the
+   terminal executes the emitted operations without fault and the grid it ends with meets the
+   specification's cell-wise expectation (grid_meets, RBFlushSpec.v: Skip cells and everything
+   outside the buffer untouched; Erase a blank, Line the table's glyph, Char the code point, Text
+   the grapheme covering the column -- each in its own cell, in its own pen).  grid_meets is
+   clause 2 of the oracle's flush_checkb, evaluated there on the grid the C implementation left. *)
+Theorem C04_flush_full : forall s t0 ops s',
+  Inv s -> acells_ok (abs_rb s) ->
+  term_ok t0 -> rb_lines s <= t_lines t0 -> rb_cols s <= t_cols t0 ->
+  flush s = Ok (ops, s') ->
+  exists t1, t_run t0 ops = Ok t1 /\ grid_meets (ag (abs_rb s)) (tg t0) (tg t1) = true.
+Proof. exact flush_full. Qed.
+Print Assumptions C04_flush_full.
+
+(* ... for every buffer a drawing program reaches (line styles 1..3), against the specification's
+   grid of C03: drawing, then flushing, shows on the terminal what the specification says was
+   drawn. *)
+Theorem C04_flush_full_reachable : forall L C prog s v t0,
+  0 <= L -> 0 <= C -> Forall op_ok prog -> run (rb_new L C) prog = Ok (s, v) ->
+  term_ok t0 -> L <= t_lines t0 -> C <= t_cols t0 ->
+  exists ops t1, flush s = Ok (ops, reset s) /\ t_run t0 ops = Ok t1 /\
+    grid_meets (ag (fst (arun (a_new L C) prog))) (tg t0) (tg t1) = true.
+Proof. exact flush_full_reachable. Qed.
+Print Assumptions C04_flush_full_reachable.
+
+(* The byte-stream side (a terminal driven through the xterm driver): the printable text a flush
+   sends -- the code points of all its prints, in order (prints_of) -- is the sequence of the
+   expected cell texts of the buffer in row-major order: every visible grapheme once, nothing
+   for Skip and Erase cells (Erase goes out as ECH), a blank or nothing for a half-visible
+   double-width character.  In particular the hidden part of a string is never sent.
+   payload_checkb is the checker the oracle evaluates on the bytes the C sent through the xterm
+   driver (`flx`). *)
+Theorem C04_flush_payload : forall s ops s',
+  Inv s -> acells_ok (abs_rb s) -> flush s = Ok (ops, s') ->
+  payload_checkb (abs_rb s) (prints_of ops) = true.
+Proof. exact flush_payload. Qed.
+Print Assumptions C04_flush_payload.
+
+Theorem C04_flush_payload_reachable : forall L C prog s v,
+  0 <= L -> 0 <= C -> Forall op_ok prog -> run (rb_new L C) prog = Ok (s, v) ->
+  exists ops, flush s = Ok (ops, reset s) /\
+    payload_checkb (fst (arun (a_new L C) prog)) (prints_of ops) = true.
+Proof. exact flush_payload_reachable. Qed.
+Print Assumptions C04_flush_payload_reachable.
 
 Example C04_nonvacuous :
   exists s v ops, run (rb_new 1 6) [OTextAt 0 0 [0xff21; 98; 99]; OCharAt 0 0 120; OHLine 0 4 5 2 3] = Ok (s, v) /\
@@ -59,3 +301,9 @@ Example C04_nonvacuous :
     ops = [TGoto 0 0; TSetPen pen_empty; TPrint [120]; TSetPen pen_empty; TPrint [32]; TPrint [98; 99];
            TSetPen pen_empty; TPrint [0x2550; 0x2550]].
 Proof. exact RBFlushProofs.nonvacuous. Qed.
+
+Example C04_columns_nonvacuous :
+  exists s v ops, run (rb_new 2 6) [OTextAt 0 0 [0xff21; 98; 99]; OCharAt 0 0 120; OEraseAt 1 1 2; OHLine 0 4 5 2 3] = Ok (s, v) /\
+    flush s = Ok (ops, reset s) /\
+    track None ops = Some ([(0, 0); (0, 1); (0, 2); (0, 3); (0, 4); (0, 5); (1, 1); (1, 2)], None).
+Proof. exact columns_nonvacuous. Qed.
